@@ -118,21 +118,21 @@ Print Assumptions C07_pruning_keeps_one_entry_per_pair.
 (* -- (d) invalid assignments are rejected ------------------------------------------------------- *)
 Theorem C07_reject_more_than_two_segments :
   forall kind bdry orig (lines : list (pline (F:=R))) arcs wls was (b : nat),
-  (b < length bdry)%nat -> pbc_format (nth b bdry 0%Z) -> (3 <= occ b (map pl_bc lines))%nat ->
+  (b < length bdry)%nat -> pbc_selected kind (nth b bdry 0%Z) = true -> (3 <= occ b (map pl_bc lines))%nat ->
   exists err, validity RA kind bdry orig lines arcs wls was = inl err.
 Proof. exact (reject_more_than_two_segments RA). Qed.
 Print Assumptions C07_reject_more_than_two_segments.
 
 Theorem C07_reject_more_than_two_arcs :
   forall kind bdry orig lines (arcs : list (parc (F:=R))) wls was (b : nat),
-  (b < length bdry)%nat -> pbc_format (nth b bdry 0%Z) -> (3 <= occ b (map pa_bc arcs))%nat ->
+  (b < length bdry)%nat -> pbc_selected kind (nth b bdry 0%Z) = true -> (3 <= occ b (map pa_bc arcs))%nat ->
   exists err, validity RA kind bdry orig lines arcs wls was = inl err.
 Proof. exact (reject_more_than_two_arcs RA). Qed.
 Print Assumptions C07_reject_more_than_two_arcs.
 
 Theorem C07_reject_mixed :
   forall kind bdry orig (lines : list (pline (F:=R))) (arcs : list (parc (F:=R))) wls was (b : nat),
-  (b < length bdry)%nat -> pbc_format (nth b bdry 0%Z) ->
+  (b < length bdry)%nat -> pbc_selected kind (nth b bdry 0%Z) = true ->
   (1 <= occ b (map pl_bc lines))%nat -> (1 <= occ b (map pa_bc arcs))%nat ->
   exists err, validity RA kind bdry orig lines arcs wls was = inl err.
 Proof. exact (reject_mixed RA). Qed.
@@ -142,7 +142,7 @@ Print Assumptions C07_reject_mixed.
    and their lengths differ by more than 1e-6 *)
 Theorem C07_reject_dissimilar :
   forall kind bdry orig (lines : list (pline (F:=R))) (arcs : list (parc (F:=R))) wls was (b : nat) l1 l2 l3,
-  (b < length bdry)%nat -> pbc_format (nth b bdry 0%Z) ->
+  (b < length bdry)%nat -> pbc_selected kind (nth b bdry 0%Z) = true ->
   map pl_bc lines = l1 ++ Some b :: l2 ++ Some b :: l3 -> occ b l1 = 0%nat -> occ b l2 = 0%nat -> occ b l3 = 0%nat ->
   occ b (map pa_bc arcs) = 0%nat ->
   (adec RA 1 (-6) < Rabs (len_of RA orig wls (length l1) - len_of RA orig wls (length l1 + 1 + length l2)))%R ->
@@ -173,22 +173,33 @@ Theorem C07_antiperiodic_pairs_force_opposite :
 Proof. exact antiperiodic_pair_forces_opposite. Qed.
 Print Assumptions C07_antiperiodic_pairs_force_opposite.
 
-(* -- the faithful model violates the property for electrostatics ---------------------------------- *)
-(* "every mesh node of one partner is listed against its image" fails for a PERIODIC condition of an
-   electrostatics file: the reader calls BdryFormat 3 periodic, the selection in
-   DoPeriodicBCTriangulation looks for 4 and 5; whatever lines or arcs carry the condition, the pair
-   list comes out empty (and invalid assignments of it are not rejected). *)
-Theorem C07_electrostatic_periodic_pairs_refuted :
-  exists (kind : filekind) (fmt : Z), is_periodic kind fmt = true /\
+(* -- which conditions the pairing code looks at ------------------------------------------------------ *)
+(* [pbc_selected] (the test in DoPeriodicBCTriangulation) and [is_periodic]/[is_antiperiodic] (what the
+   three readers call (anti)periodic) are regenerated from the sources on every run; whether the test
+   recognises every (anti)periodic condition is DECIDED by [selection_matches_readers], and both
+   outcomes have their theorem.  The check reports which one is in force (tools/props/c07.py). *)
+Theorem C07_selection_complete : selection_matches_readers = true ->
+  forall k fmt, (0 <= fmt <= 7)%Z -> reader_pbc k fmt = true -> pbc_selected k fmt = true.
+Proof. exact selection_complete. Qed.
+Print Assumptions C07_selection_complete.
+
+(* the faithful model violates the property when the decision is false: "every mesh node of one partner
+   is listed against its image" fails for a condition kind that the reader calls (anti)periodic but the
+   test does not select — whatever lines or arcs carry it, the pair list comes out empty and invalid
+   assignments of it are not rejected.  (At the time of writing: PERIODIC conditions of electrostatics
+   files, BdryFormat 3, while the test looks for 4 and 5.) *)
+Theorem C07_unselected_periodic_pairs_refuted : selection_matches_readers = false ->
+  exists k fmt, reader_pbc k fmt = true /\ pbc_selected k fmt = false /\
     forall dosmart orig lines arcs edges eles,
-      match pbc_mesh RA kind dosmart [fmt] orig lines arcs edges eles with
+      match pbc_mesh RA k dosmart [fmt] orig lines arcs edges eles with
       | POk _ _ pts => pts = []
       | PErr e => e = EBadInput
       end.
 Proof.
-  exists Electrostatics, 3%Z. split; [reflexivity|]. intros. apply no_pbc_no_pairs. reflexivity.
+  intros H. destruct (selection_incomplete_no_pairs H) as (k & fmt & H1 & H2 & H3).
+  exists k, fmt. split; [exact H1|]. split; [exact H2|]. intros. apply (H3 R RA).
 Qed.
-Print Assumptions C07_electrostatic_periodic_pairs_refuted.
+Print Assumptions C07_unselected_periodic_pairs_refuted.
 
 (* -- non-vacuity: the hypotheses are satisfiable ---------------------------------------------------- *)
 (* a translation by (2,0) takes the end points of the left side of a 2 x 1 cell to those of the right *)
@@ -217,8 +228,8 @@ Proof. split; [lia|reflexivity]. Qed.
 (* three lines carrying condition 0 (BdryFormat 4) *)
 Example C07_reject_hypotheses_satisfiable :
   let l := mkPLine 0 1 (-1)%R (Some 0%nat) 1 in
-  (0 < length [4%Z])%nat /\ pbc_format (nth 0 [4%Z] 0%Z) /\ (3 <= occ 0 (map pl_bc [l; l; l]))%nat.
-Proof. cbn. repeat split; [lia|left; reflexivity|lia]. Qed.
+  (0 < length [4%Z])%nat /\ pbc_selected Magnetics (nth 0 [4%Z] 0%Z) = true /\ (3 <= occ 0 (map pl_bc [l; l; l]))%nat.
+Proof. cbn. repeat split; lia. Qed.
 
 (* a line of length 0 and a line of length 2 are dissimilar *)
 Example C07_dissimilar_hypothesis_satisfiable :
